@@ -2,7 +2,7 @@
 #define VERIF_MEM_CELLS 5     /* one access touches 2 bytes; the frame check one more; the views lemma 2 */
 #include "mem_types.h"
 #include "mem_spec.h"
-#include "mem.h"
+#include "mem_contracts.h"
 #include "common.h"
 int verif_outcome;
 u64 ghost_g; u8 ghost_g_old;
